@@ -1,0 +1,53 @@
+//go:build verif
+
+package implementation
+
+import (
+	"math/big"
+
+	"github.com/zenon-network/go-zenon/consensus/api"
+	"github.com/zenon-network/go-zenon/vm/embedded/definition"
+	"github.com/zenon-network/go-zenon/vm/vm_context"
+)
+
+// Exports of the reward formulas and of the epoch cursor for the verification harness (build tag verif only).
+
+func VerifGetWeightedStake(info *definition.StakeInfo, startTime, endTime int64) *big.Int {
+	return getWeightedStake(info, startTime, endTime)
+}
+func VerifGetWeightedSentinel(info *definition.SentinelInfo, startTime, endTime int64) *big.Int {
+	return getWeightedSentinel(info, startTime, endTime)
+}
+func VerifGetWeightedLiquidityStake(info *definition.LiquidityStakeEntry, startTime, endTime int64) *big.Int {
+	return getWeightedLiquidityStake(info, startTime, endTime)
+}
+func VerifGetWeightedStakeAmount(amount *big.Int, stakingTime int64) *big.Int {
+	return getWeightedStakeAmount(amount, stakingTime)
+}
+func VerifGetWeightedLiquidityStakeAmount(amount *big.Int, stakingTime int64) *big.Int {
+	return getWeightedLiquidityStakeAmount(amount, stakingTime)
+}
+
+// VerifPillarEpochReward returns (delegation, block, total) reward of computePillarRewardForEpoch.
+func VerifPillarEpochReward(detail *api.EpochStats, name string) (*big.Int, *big.Int, *big.Int) {
+	r := computePillarRewardForEpoch(detail, name)
+	return r.DelegationReward, r.BlockReward, r.TotalReward
+}
+
+func VerifCheckAndPerformUpdateEpoch(context vm_context.AccountVmContext, epoch *definition.LastEpochUpdate) error {
+	return checkAndPerformUpdateEpoch(context, epoch)
+}
+func VerifUpdatePillarRewards(context vm_context.AccountVmContext) error { return updatePillarRewards(context) }
+func VerifUpdateStakeRewards(context vm_context.AccountVmContext) error  { return updateStakeRewards(context) }
+func VerifUpdateSentinelRewards(context vm_context.AccountVmContext) error {
+	return updateSentinelRewards(context)
+}
+func VerifComputeDetailedPillarReward(context vm_context.AccountVmContext, epoch uint64) error {
+	return computeDetailedPillarReward(context, epoch)
+}
+func VerifComputeStakeRewardsForEpoch(context vm_context.AccountVmContext, epoch uint64) error {
+	return computeStakeRewardsForEpoch(context, epoch)
+}
+func VerifComputeSentinelRewardsForEpoch(context vm_context.AccountVmContext, epoch uint64) error {
+	return computeSentinelRewardsForEpoch(context, epoch)
+}
